@@ -1,5 +1,121 @@
-import Banyan.Model.Util
-open Banyan
+import Banyan.Model.C16
+open Banyan Banyan.C16
 
-/- stub: model driver for C16 not built yet -/
-def main : IO Unit := runDriver fun _ => "bad-op"
+def toBytes (s : String) : List Byte := s.toUTF8.toList.map (·.toNat)
+def ofBytes (bs : List Byte) : String := String.ofList (bs.map Char.ofNat)
+
+def hex16 (n : Nat) : String := hexOfBytes (beBytes 8 n)
+
+/-- `g:n:r`, `~g:n:r`, `!g` -/
+def parseGroup (tok : String) : Option GroupSpec :=
+  let (catOk, tok) := if tok.startsWith "~" then (false, (tok.drop 1).toString) else (true, tok)
+  if tok.startsWith "!" then some { name := toBytes (tok.drop 1).toString, valid := false, shardNum := 0, replicas := 0 }
+  else match tok.splitOn ":" with
+    | [g, n, r] => do
+      let n ← n.toNat?
+      let r ← r.toNat?
+      pure { name := toBytes g, valid := catOk, shardNum := n, replicas := r }
+    | _ => none
+
+def parseEvent (withSel : Bool) (tok : String) : Option Event :=
+  let rest := (tok.drop 1).toString
+  match tok.toList.head? with
+  | some '+' => some (.addNode (toBytes rest) true)
+  | some '*' => some (.addNode (toBytes rest) (!withSel))
+  | some '-' => some (.removeNode (toBytes rest))
+  | some '^' => some (.delete (toBytes rest) true)
+  | some '&' => some (.delete (toBytes rest) false)
+  | some '%' => (parseGroup rest).map fun g => .addOrUpdate g.name false g.shardNum g.replicas
+  | some '@' =>
+    if tok == "@-" then some (.init []) else (rest.splitOn ",").mapM parseGroup |>.map .init
+  | some _ => (parseGroup tok).map fun g => .addOrUpdate g.name g.valid g.shardNum g.replicas
+  | none => none
+
+/-- group names and shard counts mentioned by a token (mirrors the Go driver's query-set construction) -/
+def tokenSpecs (tok : String) : List String :=
+  match tok.toList.head? with
+  | some '+' | some '-' | some '*' | some '|' => []
+  | some '@' => if tok == "@-" then [] else ((tok.drop 1).toString.splitOn ",")
+  | _ => [tok]
+
+def specName (sp : String) : String :=
+  let s := String.ofList (sp.toList.dropWhile fun c => c == '~' || c == '!' || c == '%' || c == '^' || c == '&')
+  (s.splitOn ":").headD ""
+
+def specShards (sp : String) : Nat :=
+  match sp.splitOn ":" with
+  | [_, n, _] => n.toNat?.getD 0
+  | _ => 0
+
+def showPick : PickResult → String
+  | .node n => ofBytes n
+  | .noNodes => "N"
+  | .unknown => "U"
+
+def pairLt (a b : List Byte × String) : Bool := lexLt a.1 b.1
+
+def showSel (st : Sel) (groups : List Name) (maxShard : Nat) : String :=
+  let picks := groups.flatMap fun g =>
+    (List.range (maxShard + 1)).map fun s =>
+      s!"{ofBytes g}:{s}=" ++ ",".intercalate ((List.range 4).map fun r => showPick (pick st g s r))
+  let entries := (describe st).map fun (g, s, i, p) =>
+    let k := s!"{ofBytes g}-{s}-{i}"
+    (toBytes k, k ++ ">" ++ showPick p)
+  let sorted := sortBy pairLt entries
+  let str := if sorted.isEmpty then "-" else ";".intercalate (sorted.map (·.2))
+  " ".intercalate (picks ++ ["S=" ++ str])
+
+def splitSeqs : List String → List String → List (List String)
+  | [], cur => [cur.reverse]
+  | t :: ts, cur => if t == "|" then cur.reverse :: splitSeqs ts [] else splitSeqs ts (t :: cur)
+
+def dedup : List Name → List Name
+  | [] => []
+  | x :: xs => if xs.contains x then dedup xs else x :: dedup xs
+
+def parseTV (s : String) : Option C12.TagValue :=
+  match s.toList with
+  | ['N'] => some .null
+  | 'S' :: r => (bytesOfHex (String.ofList r)).map .str
+  | 'B' :: r => (bytesOfHex (String.ofList r)).map .bin
+  | 'I' :: r => (String.ofList r).toInt?.map fun i => .int (BitVec.ofInt 64 i)
+  | _ => none
+
+def showShard : Option Nat → String
+  | some s => toString s
+  | none => "ERR"
+
+def handle (line : String) : String :=
+  match words line with
+  | "shard" :: n :: key :: [] =>
+    match n.toNat?, bytesOfHex key with
+    | some n, some key =>
+      let h := xxhash64 key
+      s!"{hex16 h} {showShard (shardID h n)} {traceShardID h n}"
+    | _, _ => "bad-op"
+  | "loc" :: n :: k :: subj :: tvs =>
+    match n.toNat?, bytesOfHex subj, tvs.mapM parseTV with
+    | some n, some subj, some vals =>
+      let k? := if k == "-" then some none else k.toNat?.map some
+      match k? with
+      | some k =>
+        if (k.getD 0) > vals.length then "bad-op" else
+        let r := showShard (applyLocators xxhash64 subj vals k n)
+        s!"{hexOrDash (entityKey subj vals)} {r} {r}"
+      | none => "bad-op"
+    | _, _, _ => "bad-op"
+  | op :: toks =>
+    if op == "sel" || op == "sels" then
+      let withSel := op == "sels"
+      let specs := toks.flatMap tokenSpecs
+      let groups := sortBy lexLt (dedup (toBytes "zz" :: (specs.map fun sp => toBytes (specName sp))))
+      let maxShard := (specs.map specShards).foldl max 0
+      let outs := (splitSeqs toks []).map fun sq =>
+        match sq.mapM (parseEvent withSel) with
+        | some es => showSel (run es) groups maxShard
+        | none => "bad-op"
+      " | ".intercalate outs
+    else "bad-op"
+  | _ => "bad-op"
+
+def main : IO Unit := runDriver handle
